@@ -269,25 +269,29 @@ GetChild(h, id, key) ==
     IF h[id].k = "d" THEN MGet(h[id].cm, key)
     ELSE LET idx == VIdx(Len(h[id].py), key, TRUE) IN IF idx < 0 THEN 0 ELSE h[id].py[idx + 1]
 
+\* A path is a sequence of names plus, in parallel, of which container type each name is ("l" = an index,
+\* "d" = a mapping key): TLC cannot ask a value for its type, and `name in self._children` / `cfgobj[name]` with a
+\* name of the other type is simply "not there" (or TypeError) in Python.
 \* composed.py:63-96,111-139 get_node(path): 0 = not found (None / KeyError)
-RECURSIVE Lookup(_, _, _)
-Lookup(h, id, p) ==
+RECURSIVE Lookup(_, _, _, _)
+Lookup(h, id, p, ks) ==
     IF Len(p) = 0 THEN id
     ELSE IF id = 0 THEN 0
-    ELSE IF ~IsCont(h, id) THEN 0
+    ELSE IF h[id].k # Head(ks) THEN 0                 \* not a container, or no child of that name
     ELSE IF ~HasChild(h, id, Head(p)) THEN 0
-    ELSE Lookup(h, GetChild(h, id, Head(p)), Tail(p))
+    ELSE Lookup(h, GetChild(h, id, Head(p)), Tail(p), Tail(ks))
 
-\* composed.py:222-241 nodes_with_paths(recursive=True): a SEQUENCE of <<path, id>> in walk order
-RECURSIVE WalkFrom(_, _, _)
-RECURSIVE WalkKids(_, _, _, _)
-WalkKids(h, cm, prefix, j) ==
-    IF j > Len(cm) THEN <<>>
-    ELSE LET c  == cm[j][2]
-             cp == Append(prefix, cm[j][1])
-         IN << <<cp, c>> >> \o (IF IsCont(h, c) THEN WalkFrom(h, c, cp) ELSE <<>>) \o WalkKids(h, cm, prefix, j + 1)
-WalkFrom(h, id, prefix) == WalkKids(h, h[id].cm, prefix, 1)
-Walk(h, root) == WalkFrom(h, root, <<>>)
+\* composed.py:222-241 nodes_with_paths(recursive=True): a SEQUENCE of <<path, kinds, id>> in walk order
+RECURSIVE WalkFrom(_, _, _, _)
+RECURSIVE WalkKids(_, _, _, _, _)
+WalkKids(h, id, prefix, pk, j) ==
+    IF j > Len(h[id].cm) THEN <<>>
+    ELSE LET c  == h[id].cm[j][2]
+             cp == Append(prefix, h[id].cm[j][1])
+             ck == Append(pk, h[id].k)
+         IN << <<cp, ck, c>> >> \o (IF IsCont(h, c) THEN WalkFrom(h, c, cp, ck) ELSE <<>>) \o WalkKids(h, id, prefix, pk, j + 1)
+WalkFrom(h, id, prefix, pk) == WalkKids(h, id, prefix, pk, 1)
+Walk(h, root) == WalkFrom(h, root, <<>>, <<>>)
 
 \* containers reachable through either view
 RECURSIVE ReachFrom(_, _, _)
@@ -322,27 +326,32 @@ Tok(h, id, view) ==
       [] h[id].k = "l"   -> <<"[">> \o TokKids(h, id, view, IF view = "cm" THEN h[id].cm ELSE h[id].py, 1) \o <<"]">>
       [] h[id].k = "d"   -> <<"{">> \o TokKids(h, id, view, IF view = "cm" THEN h[id].cm ELSE h[id].py, 1) \o <<"}">>
 
-\* cfgobj[key] on the built-in view: ConfigList.__getitem__ (strict index) / dict.__getitem__; 0 = raises
-PyGet(h, id, key) ==
+\* cfgobj[key] on the built-in view: ConfigList.__getitem__ (strict index; TypeError for a name) /
+\* dict.__getitem__; anything else is not subscriptable.  0 = raises
+PyGet(h, id, key, kk) ==
     IF id = 0 THEN 0
-    ELSE IF h[id].k = "l" THEN (LET idx == VIdx(Len(h[id].py), key, TRUE) IN IF idx < 0 THEN 0 ELSE h[id].py[idx + 1])
-    ELSE IF h[id].k = "d" THEN MGet(h[id].py, key)
-    ELSE 0
-RECURSIVE PyChain(_, _, _)
-PyChain(h, id, p) == IF Len(p) = 0 THEN id ELSE IF id = 0 THEN 0 ELSE PyChain(h, PyGet(h, id, Head(p)), Tail(p))
+    ELSE IF h[id].k # kk THEN 0
+    ELSE IF kk = "l" THEN (LET idx == VIdx(Len(h[id].py), key, TRUE) IN IF idx < 0 THEN 0 ELSE h[id].py[idx + 1])
+    ELSE MGet(h[id].py, key)
+RECURSIVE PyChain(_, _, _, _)
+PyChain(h, id, p, ks) == IF Len(p) = 0 THEN id ELSE IF id = 0 THEN 0
+                         ELSE PyChain(h, PyGet(h, id, Head(p), Head(ks)), Tail(p), Tail(ks))
 
-\* worklist of <<path, id>> in evaluation order; a node already evaluated is served from the id cache
+\* worklist of <<path, kinds, id>> in evaluation order; a node already evaluated is served from the id cache
 \* (eval_context.py:131-132) before any parent is looked up
 RECURSIVE EvalFails(_, _, _, _)
 EvalFails(h, root, todo, seen) ==
     IF Len(todo) = 0 THEN FALSE
     ELSE LET p  == todo[1][1]
-             id == todo[1][2]
+             ks == todo[1][2]
+             id == todo[1][3]
          IN IF id \in seen THEN EvalFails(h, root, Tail(todo), seen)
-            ELSE IF Len(p) >= 2 /\ PyChain(h, root, SubSeq(p, 1, Len(p) - 1)) = 0 THEN TRUE
-            ELSE LET kids == IF IsCont(h, id) THEN [j \in DOMAIN h[id].cm |-> <<Append(p, h[id].cm[j][1]), h[id].cm[j][2]>>] ELSE <<>>
+            ELSE IF Len(p) >= 2 /\ PyChain(h, root, SubSeq(p, 1, Len(p) - 1), SubSeq(ks, 1, Len(p) - 1)) = 0 THEN TRUE
+            ELSE LET kids == IF IsCont(h, id)
+                             THEN [j \in DOMAIN h[id].cm |-> <<Append(p, h[id].cm[j][1]), Append(ks, h[id].k), h[id].cm[j][2]>>]
+                             ELSE <<>>
                  IN EvalFails(h, root, kids \o Tail(todo), seen \cup {id})
-EvalErr(h, root) == EvalFails(h, root, << <<<<>>, root>> >>, {})
+EvalErr(h, root) == EvalFails(h, root, << <<<<>>, <<>>, root>> >>, {})
 EvalTok(h, root) == IF EvalErr(h, root) THEN <<"err">> ELSE Tok(h, root, "cm")
 
 (***************************************************************************)
@@ -357,26 +366,21 @@ AllNodesR(h, R) == \A id \in R : h[id].k # "raw"
 NumberedR(h, R) == \A id \in R : h[id].k = "l" =>
                         {h[id].cm[p][1] : p \in DOMAIN h[id].cm} = 0..(Len(h[id].cm) - 1)
 \* every node reported by the tree walk is the one returned by looking its path up again
-WalkLookupW(h, root, w) == \A j \in DOMAIN w : Lookup(h, root, w[j][1]) = w[j][2]
+WalkLookupW(h, root, w) == \A j \in DOMAIN w : Lookup(h, root, w[j][1], w[j][2]) = w[j][3]
 \* evaluation sees the entries the built-in containers hold, in the same order
 EvalAgree(h, root) == EvalTok(h, root) = Tok(h, root, "py")
 
 \* a walked path converted to text and parsed back is unchanged (names over [a-zA-Z0-9_])
 NameChars(s) == CASE s = "a" -> <<"a">> [] s = "b" -> <<"b">> [] s = "c" -> <<"c">> [] s = "z" -> <<"z">>
                   [] s = "_x" -> <<"_", "x">> [] s = "_y" -> <<"_", "y">>
-RECURSIVE CompsOf(_, _, _)
-\* the walk knows of which container type every name is
-CompsOf(h, id, p) ==
-    IF Len(p) = 0 THEN <<>>
-    ELSE <<IF h[id].k = "l" THEN P!IComp(Head(p)) ELSE P!SComp(NameChars(Head(p)))>>
-         \o CompsOf(h, MGet(h[id].cm, Head(p)), Tail(p))
-PathRoundTripW(h, root, w) == \A j \in DOMAIN w : P!RoundTrip(CompsOf(h, root, w[j][1]))
+CompsOf(p, ks) == [j \in DOMAIN p |-> IF ks[j] = "l" THEN P!IComp(p[j]) ELSE P!SComp(NameChars(p[j]))]
+PathRoundTripW(w) == \A j \in DOMAIN w : P!RoundTrip(CompsOf(w[j][1], w[j][2]))
 
 ViewsAgree(h, root)    == ViewsAgreeR(h, Reach(h, root))
 AllNodes(h, root)      == AllNodesR(h, Reach(h, root))
 Numbered(h, root)      == NumberedR(h, Reach(h, root))
 WalkLookup(h, root)    == WalkLookupW(h, root, Walk(h, root))
-PathRoundTrip(h, root) == PathRoundTripW(h, root, Walk(h, root))
+PathRoundTrip(h, root) == PathRoundTripW(Walk(h, root))
 
 Broken(h, root) ==
     LET R == Reach(h, root)
@@ -386,15 +390,15 @@ Broken(h, root) ==
        (IF NumberedR(h, R) THEN {} ELSE {"Numbered"}) \cup
        (IF WalkLookupW(h, root, w) THEN {} ELSE {"WalkLookup"}) \cup
        (IF EvalAgree(h, root) THEN {} ELSE {"EvalAgree"}) \cup
-       (IF PathRoundTripW(h, root, w) THEN {} ELSE {"PathRoundTrip"})
+       (IF PathRoundTripW(w) THEN {} ELSE {"PathRoundTrip"})
 
 (***************************************************************************)
-(* One public operation.  op = [op, t (path of the target container), i, i2,*)
-(* key, key2, flag, vals].  The target is found the way a caller finds it:  *)
-(* root.ayns.get_node(path).                                                *)
+(* One public operation.  op = [op, t (path of the target container), tk    *)
+(* (its kinds), i, i2, key, key2, flag, vals].  The target is found the way *)
+(* a caller finds it: root.ayns.get_node(path).                             *)
 (***************************************************************************)
 Apply(h, root, op) ==
-    LET t == Lookup(h, root, op.t)
+    LET t == Lookup(h, root, op.t, op.tk)
     IN CASE op.op = "l.setitem"      -> LSet(h, t, op.i, op.vals[1], TRUE)
          [] op.op = "l.delitem"      -> LDel(h, t, op.i)
          [] op.op = "l.append"       -> LAppend(h, t, op.vals[1])
@@ -422,7 +426,7 @@ Apply(h, root, op) ==
 OpKind(op) == IF op.op \in {"l.setitem", "l.delitem", "l.append", "l.insert", "l.extend", "l.remove", "l.pop",
                             "l.clear", "l.set_child", "l.remove_child", "l.rename_child"} THEN "l" ELSE "d"
 \* an operation is applicable when its target exists and is a container of the right type
-Applicable(h, root, op) == LET t == Lookup(h, root, op.t) IN t # 0 /\ h[t].k = OpKind(op)
+Applicable(h, root, op) == LET t == Lookup(h, root, op.t, op.tk) IN t # 0 /\ h[t].k = OpKind(op)
 
 \* the reachable part of the heap for JSON output: one <<id, kind, py, cm>> per container / unwrapped value
 \* (a scalar node is its payload: id = v, so scalars are implied by the references to them)
